@@ -240,8 +240,12 @@ def tok_6(ctx, rep):
     # fallback branch: `if not <match>:` whose body ends in continue and updates pos by += positive constant
     found = False
     for n in ast.walk(loop):
-        if isinstance(n, ast.If) and isinstance(n.test, ast.UnaryOp) and isinstance(n.test.op, ast.Not) \
-                and isinstance(n.test.operand, ast.Name) and n.body and isinstance(n.body[-1], ast.Continue) \
+        no_match = (isinstance(n, ast.If) and isinstance(n.test, ast.UnaryOp) and isinstance(n.test.op, ast.Not)
+                    and isinstance(n.test.operand, ast.Name)) or \
+                   (isinstance(n, ast.If) and isinstance(n.test, ast.Compare) and len(n.test.ops) == 1
+                    and isinstance(n.test.ops[0], ast.Is) and isinstance(n.test.left, ast.Name)
+                    and isinstance(n.test.comparators[0], ast.Constant) and n.test.comparators[0].value is None)
+        if no_match and n.body and isinstance(n.body[-1], ast.Continue) \
                 and any('ERRORTOKEN' in norm(s) for s in n.body):
             found = True
             updates = [s for s in n.body if isinstance(s, (ast.Assign, ast.AugAssign)) and pos in norm(
